@@ -2,7 +2,7 @@
 from . import regcommon, worldcommon
 
 THEOREMS = ["ZI.Registry.lookupAllRec_get", "ZI.Registry.C08_lookupAll", "ZI.Registry.get?_foldl_set", "ZI.Registry.foldl_reverse_overlay", "ZI.Registry.lookupRec_eq_first", "ZI.Upd.get?_fold_reverse", "ZI.Lookup.lookupRec_eq_first",
-            "ZI.Registry.C08_registry_lookupAll_agrees", "ZI.Registry.uncachedLookupAll_get"]
+            "ZI.Registry.C08_registry_lookupAll_agrees", "ZI.Registry.uncachedLookupAll_get", "ZI.Registry.C08_verifying_lookupAll_agrees"]
 PROFILE = dict(weights=[5, 1, 2.5, 0.8, 0.6, 0.1, 0], queries=["lookup", "lookup1", "lookupAll", "names", "subs"], nregs=(1, 3), extra_queries=1,
                arity=[0, 1, 1, 1, 2, 2], objects=True, entry_rounds=2, steps=(5, 22))
 # the entry points must agree in every reachable state, including states reached by declaration / hierarchy changes while
